@@ -137,6 +137,7 @@ func runC12Stream(ops []c12Op) (trace []string, finalClosed []int, findings []Mo
 				findings = append(findings, MonitorFinding{"C12/harness", "ListenStream succeeded on an address held by another socket", ops})
 			}
 			own.Close()
+			trace = append(trace, "OFailAcquire")
 		case "dial":
 			c, err := net.DialTimeout("tcp", addr, 300*time.Millisecond)
 			if err != nil {
